@@ -144,7 +144,7 @@ PROPS.update({
                    "their real existence is observed only through the simnet open/close log and the synctest bubble draining at the end of every history"]),
     "C16": dict(h2prop(["TurnModel.Props.C16"],
                        ["m:connect", "m:cbind", "pconn", "pc2p", "pp2c", "pclosec", "pclosep", "adv", "cclose", "rerr", "close", "state"],
-                       ["resp", "dial", "catt", "cclosed", "p2p", "p2c", "dclosed"], ["manager-blocked-by-dial", "h9-setup", "server-wedged", "bind-response-lost-leaks-peer-connection"],
+                       ["resp", "dial", "catt", "cclosed", "p2p", "p2c", "dclosed"], ["manager-blocked-by-dial", "h9-setup", "server-wedged", "bind-response-lost-leaks-peer-connection", "bind-pipelined-bytes-lost"],
                        ["PARTIAL: io.Copy / TCP byte piping is the runtime's; byte integrity of the pipe is observed by the harness, not proved about Go",
                         "connection ids are canonicalised to first-occurrence indices (the real ids are random)"]),
                 env={"VERIF_H2_MODE": "tcp"}, harnesses=["H2", "H9"]),
